@@ -12,10 +12,12 @@ from vx import Unit, Source
 
 HND = "vhost-user-backend/src/handler.rs"
 
+# `for (i, x) in v.iter().enumerate() {` -> a while loop whose counter `i_next` is advanced FIRST (so that a `continue` in the body
+# keeps its meaning; Verus for-loops do not support `continue`), with `i` and `x` bound as in the original
 R21_COPY = lambda v, i, x: ("R21", r'for \(%s, %s\) in %s\.iter\(\)\.enumerate\(\) \{' % (i, x, re.escape(v)),
-                            'for %s in 0..%s.len() { let %s = %s[%s];' % (i, v, x, v, i))
+                            'let mut %s_next: usize = 0; while %s_next < %s.len() { let %s = %s_next; %s_next += 1; let %s = %s[%s];' % (i, i, v, i, i, i, x, v, i))
 R21_REF = lambda v, i, x: ("R21", r'for \(%s, %s\) in %s\.iter\(\)\.enumerate\(\) \{' % (i, x, re.escape(v)),
-                           'for %s in 0..%s.len() { let %s = &%s[%s];' % (i, v, x, v, i))
+                           'let mut %s_next: usize = 0; while %s_next < %s.len() { let %s = %s_next; %s_next += 1; let %s = &%s[%s];' % (i, i, v, i, i, i, x, v, i))
 
 HANDLER_FACTS = """self.handlers@.len() == self.queues_per_thread@.len(),
             forall|t: int| 0 <= t < self.handlers@.len() ==> (#[trigger] self.handlers@[t]).h.thread@ == t,
@@ -48,10 +50,12 @@ def build():
                    ],
                    loops=[
                        dict(kind="for", nth=0, iter="it", text="            invariant vrings@.len() == it.index@, num_queues <= 64,"),
-                       dict(kind="for", nth=1, iter="it", text="""            invariant vrings@.len() == num_queues, num_queues <= 64, handlers@.len() == thread_id,
-                forall|t: int| 0 <= t < thread_id ==> (#[trigger] handlers@[t]).h.thread@ == t && slice_ok(ids(vrings@), queues_per_thread@[t], handlers@[t].h.vrings@),"""),
-                       dict(kind="for", nth=2, iter="it2", text="""                invariant vrings@.len() <= 64, thread_vrings@.len() == rank(queues_mask, index as int),
-                    forall|q: int| 0 <= q < index && bit(queues_mask, q) ==> (#[trigger] thread_vrings@[rank(queues_mask, q)]).id@ == vrings@[q].id@,"""),
+                       dict(kind="while", nth=0, text="""            invariant vrings@.len() == num_queues, num_queues <= 64, handlers@.len() == thread_id_next, thread_id_next <= queues_per_thread@.len(),
+                forall|t: int| 0 <= t < thread_id_next ==> (#[trigger] handlers@[t]).h.thread@ == t && slice_ok(ids(vrings@), queues_per_thread@[t], handlers@[t].h.vrings@),
+            decreases queues_per_thread@.len() - thread_id_next,"""),
+                       dict(kind="while", nth=1, text="""                invariant vrings@.len() <= 64, index_next <= vrings@.len(), thread_vrings@.len() == rank(queues_mask, index_next as int),
+                    forall|q: int| 0 <= q < index_next && bit(queues_mask, q) ==> (#[trigger] thread_vrings@[rank(queues_mask, q)]).id@ == vrings@[q].id@,
+                decreases vrings@.len() - index_next,"""),
                    ],
                    hints=[
                        (r'let vring = &vrings\[index\];', """assert forall|q: int| 0 <= q < index && bit(queues_mask, q) implies rank(queues_mask, q) < rank(queues_mask, index as int) by { lemma_rank_mono(queues_mask, q + 1, index as int); }""", "after"),
@@ -67,10 +71,11 @@ def build():
                    sig_rw=[("R3", r'&T::Vring', '&VringStub')],
                    body_rw=[R21_COPY("self.queues_per_thread", "thread_index", "queues_mask"),
                             ("R10", r'\bio::ErrorKind::', 'IoErrorKind::')],
-                   loops=[dict(kind="for", nth=0, iter="it", text="""                invariant_except_break
-                    forall|u: int| 0 <= u < thread_index ==> !bit(#[trigger] self.queues_per_thread@[u], index as int),
-                invariant index < 64, *vring_state == vring.st, vring.st.kick == Some(*fd),
-            """ + HANDLER_FACTS)],
+                   loops=[dict(kind="while", nth=0, text="""                invariant_except_break
+                    forall|u: int| 0 <= u < thread_index_next ==> !bit(#[trigger] self.queues_per_thread@[u], index as int),
+                invariant index < 64, *vring_state == vring.st, vring.st.kick == Some(*fd), thread_index_next <= self.queues_per_thread@.len(),
+            """ + HANDLER_FACTS + """
+                decreases self.queues_per_thread@.len() - thread_index_next,""")],
                    hints=[(r'let evt_idx = ', """lemma_evt_idx(queues_mask, index as int); assert(is_owner(self.queues_per_thread@, index as int, thread_index as int));""")],
                    contract="""
         requires index < 64,   // A-NQ64
